@@ -113,6 +113,8 @@ func (tc TypeCache) GoType(p *Prod) reflect.Type {
 		fs = append(fs, reflect.StructField{Name: "PosMixin", Type: reflect.TypeOf(PosMixin{}), Anonymous: true})
 	case p.PosStyle == 3 && p.HasPos:
 		fs = append(fs, reflect.StructField{Name: "PosDeep2", Type: reflect.TypeOf(PosDeep2{}), Anonymous: true})
+	case p.PosStyle == 5 && p.HasPos:
+		fs = append(fs, reflect.StructField{Name: "Pos", Type: posT}, reflect.StructField{Name: "EndPos", Type: nposT}, reflect.StructField{Name: "Tokens", Type: toksT})
 	case p.PosStyle == 2 && p.HasPos:
 		fs = append(fs, reflect.StructField{Name: "Pos", Type: nposT}, reflect.StructField{Name: "EndPos", Type: nposT}, reflect.StructField{Name: "Tokens", Type: toksT})
 	default:
